@@ -28,7 +28,9 @@ MANIFEST = {
 REQUIRED = ["KV.C06.header_counts", "KV.C06.specials", "KV.C06.closed_spec", "KV.C06.normalised_abstract",
             "KV.C06.ctx_mass_identity", "KV.C06.normalised", "KV.C06.normalised_estimate", "KV.C06.normalised_table",
             "KV.C06.normalised_corpus", "KV.C06.normalised_corpus1", "KV.C06.tableWF_countFull", "KV.C06.prob_le_zero",
-            "KV.C06.score_bounds", "KV.C06.normalised_stream", "KV.C06.header_counts_corpus", "KV.C06.closed_corpus", "KV.C06.specials_corpus",
+            "KV.C06.score_bounds", "KV.C06.normalised_stream", "KV.C06.prune_rule_tree", "KV.C06.parsePruning_ok", "KV.C06.closed_under_prune_rule",
+            "KV.C06.closed_fails_without_rule", "KV.C06.intermediate_eq", "KV.C06.intermediate_header",
+            "KV.C06.specials_corpus1", "KV.C06.header_counts_corpus1", "KV.C06.header_counts_corpus", "KV.C06.closed_corpus", "KV.C06.specials_corpus",
             "KV.C06.keep_specials_tree", "KV.C06.prune_copies_specials_tree"]
 
 SUM_TOL = 2e-5
@@ -177,14 +179,37 @@ def check_intermediate(case, base, arpa):
     return out
 
 
-def one_case(ctx, tools, case, wd, tag="c"):
+def one_case(ctx, tools, case, wd, tag="c", dexe=None):
     findings = []
-    t = L.run_lmplz(tools["lmplz"], case, wd, tag)
+    t = L.run_lmplz(tools["lmplz"], case, wd, tag, timeout=120 if len(case["corpus"]) < 200000 else 600)
     ctx.hist("tool.class", t["cls"])
     ctx.hist("order", case["order"])
-    ctx.hist("prune", "none" if case["prune"] is None else ("uni" if case["prune"][0] > 0 else "hi"))
+    ctx.hist("prune", L.prune_kind(case))
     ctx.hist("limit_vocab", case["limit"] is not None)
     ctx.hist("interp_unigrams", case["interp"])
+    # ---- the option-vector predicate (ParsePruning): the tool, the Lean model (Model/KN.lean `parsePruning`)
+    #      and the independent transcription must agree on accept / refuse and on the class; a refusal
+    #      happens up front and writes nothing; whatever the tool DOES write goes through the full oracle below
+    pcls, pthr = L.parse_prune(case)
+    if dexe is not None and (case["prune"] is not None):
+        d = L.run_driver(dexe, case, wd, tag, parse_only=True)
+        if d["cls"] != pcls:
+            findings.append(("prune-model", "option vector %r order %d: Lean parsePruning says %s, the transcription %s" % (
+                case["prune"], case["order"], d["cls"], pcls)))
+    PR = ("prune-order", "prune-count", "bad-threshold")
+    if pcls != "ok":
+        if t["cls"] == "ok":
+            findings.append(("prune-accept", "lmplz accepts the illegal --prune vector %r (order %d; rule: %s)" % (
+                case["prune"], case["order"], pcls)))
+        elif t["cls"] != pcls and t["cls"] not in ("special-symbol",):
+            findings.append(("prune-class", "--prune %r: lmplz fails with %s, the rule says %s" % (case["prune"], t["cls"], pcls)))
+        if t["cls"] != "ok" and t.get("wrote"):
+            findings.append(("prune-wrote", "lmplz refused --prune %r but left an output file" % (case["prune"],)))
+        if t["cls"] != "ok":
+            return findings
+    elif t["cls"] in PR:
+        findings.append(("prune-refuse", "lmplz refuses the legal --prune vector %r with %s" % (case["prune"], t["cls"])))
+        return findings
     if t["cls"] != "ok":
         if t["cls"] not in ("bad-discount", "special-symbol"):
             findings.append(("class", "lmplz fails with %s: %s" % (t["cls"], t["stderr"].strip().splitlines()[-1][:200] if t["stderr"].strip() else "")))
@@ -249,7 +274,7 @@ def shrink(ctx, tools, case, wd, key):
         c = dict(case)
         c["corpus"] = b"".join(l + b"\n" for l in ls)
         try:
-            return any(k == key for k, _ in one_case(Null(), tools, c, wd, tag="shrink"))
+            return any(k == key for k, _ in one_case(Null(), tools, c, wd, tag="shrink", dexe=None))
         except Exception:
             return False
     n = 2
@@ -283,7 +308,8 @@ def run(ctx):
         flow.report_obligation_failures(ctx, ["the tree does not build: " + lg], False)
         return
     problems, consts = flow.proof_phase(ctx, "C06", probe="probe_C05.cc", probe_flags=['-DLMPLZ_BIN="%s"' % tools["lmplz"]],
-                                        required=REQUIRED, drivers=[])
+                                        required=REQUIRED, drivers=["drv_C05"])
+    dexe = lean.driver_path("drv_C05")
     found = False
     try:
         if ctx.tier == "quick":
@@ -298,7 +324,7 @@ def run(ctx):
                     case["fallback"] = "default"        # most tiny corpora need it to be accepted at all
                 if ctx.tier == "thorough" and i % 10 == 0:
                     case["_all_kinds"] = True
-                f = one_case(ctx, tools, case, wd)
+                f = one_case(ctx, tools, case, wd, dexe=dexe)
                 if i < 3:
                     ctx.sample({"stream": "lmplz", "label": case["label"], "args": L.lmplz_args(case),
                                 "corpus_head": case["corpus"][:80].decode("latin-1")})
@@ -309,7 +335,9 @@ def run(ctx):
                     continue
                 reported |= keys
                 key = sorted(keys)[0]
-                small = shrink(ctx, tools, case, wd, key)
+                # for option-vector findings the vector is the input; the corpus hardly matters (and a tool that
+                # hangs on it would cost one timeout per shrinking step)
+                small = case if key.startswith("prune-") or any(m.find("timeout") >= 0 for _, m in f) else shrink(ctx, tools, case, wd, key)
                 f2 = [x for x in one_case(ctx, tools, small, wd, tag="rep") if x[0] == key] or f
                 if ctx.violation("lmplz output violates C06 (%s): %s" % (key, f2[0][1][:300]), replay_obj(small, tools, f2),
                                  key="zero-discount-backoff-inf" if key == "load-inf" else None):
